@@ -3,13 +3,20 @@ import os, json
 from hypothesis import strategies as st
 from vlib import hyp, corrupt, fsgen, core, e4ref
 LEVEL = 'exploration'
-RULE = ('Hypothesis draws (configuration, population recipe, 1-4 structure-aware mutations with or without checksum fix-up); the independent checker e4ref (no libext2fs code) judges the corrupted bytes '
+RULE = ('Hypothesis draws (configuration, population recipe, and either 1-4 structure-aware mutations with or without checksum fix-up or ONE violation-directed mutation: a pointer/count field of one object set to a boundary value - first invalid block number, one past it, all ones, +-1, another file\'s block, fixed metadata - with checksums fixed up); the independent checker e4ref (no libext2fs code) judges the corrupted bytes '
         'against the invariants the property lists (range/ownership of blocks, bitmaps and per-group counts, link counts and reachability, extent/dirent/htree well-formedness, every checksum); '
         'violation = e4ref proves an invariant broken and `e2fsck -fn` exits 0; non-trivial = e4ref confirmed at least one broken invariant; distinct by (invariant kinds, damaged areas, configuration)')
 CFG_NAMES = [c['name'] for c in fsgen.CONFIGS]
 
+# violation-directed single mutations: one pointer / count field of one object set to a boundary value (first invalid block number, one past it, all ones, +-1, another owner's block,
+# fixed metadata) with the checksum fixed up, so that exactly one listed invariant breaks and nothing else masks it
+_PTR_CLASSES = [corrupt.CLASSES.index(c) for c in ('inode', 'inode', 'special', 'extent', 'ind', 'gd', 'xattr', 'dirent', 'dx')]
+_DIR_KINDS = [corrupt.KINDS.index(k) for k in ('out_of_range', 'out_of_range', 'inc', 'dec', 'other_block', 'meta_block', 'zero', 'ones')]
+directed = st.tuples(st.sampled_from(_PTR_CLASSES), st.integers(0, 500), st.integers(0, 200), st.sampled_from(_DIR_KINDS), st.sampled_from([5, 15, 11, 1, 21, 3, 13, 7, 9, 25]), st.just(True))
+
 def strategy(env):
-    return st.fixed_dictionaries(dict(cfg=st.sampled_from(CFG_NAMES), recipe=st.integers(0, len(hyp.RECIPES) - 1), muts=st.lists(hyp.mutation, min_size=1, max_size=4)))
+    return st.fixed_dictionaries(dict(cfg=st.sampled_from(CFG_NAMES), recipe=st.integers(0, len(hyp.RECIPES) - 1),
+                                      muts=st.one_of(st.lists(hyp.mutation, min_size=1, max_size=4), st.lists(directed, min_size=1, max_size=1), st.lists(directed, min_size=1, max_size=1))))
 
 def envinit(widx):
     env = hyp.img_env(widx, variants=('asan',)); env['base_ok'] = {}
